@@ -36,7 +36,7 @@ fn tuple_kinds() -> Vec<(&'static str, Kind)> {
 }
 
 // identifiers with `_` directly before a digit are left out: whether that digit run is "split off" once more is not settled by the statement
-const IDENT_POOL: [&str; 7] = ["Hello2You", "HTTPServer", "A1", "Utf8To16", "X_y", "Ab2c3", "V1"];
+const IDENT_POOL: [&str; 9] = ["Hello2You", "HTTPServer", "A1", "Utf8To16", "X_y", "Ab2c3", "V1", "Café2", "Ünï3x"];
 
 fn alphabet(n: usize) -> Vec<Dev> {
     let mut d: Vec<Dev> = Vec::new();
@@ -61,6 +61,21 @@ fn alphabet(n: usize) -> Vec<Dev> {
             true
         }));
     }
+    // two variants whose method names coincide, exactly one of them disabled (valid: a disabled variant gets no method)
+    if n >= 2 {
+        d.push(dev("v0.ident=HTTPServer + v1.ident=HttpServer(disabled)", &["id0", "id1", "dis1"], |s| {
+            s.variants[0].ident = "HTTPServer".into();
+            s.variants[1].ident = "HttpServer".into();
+            s.variants[1].disabled = true;
+            true
+        }));
+        d.push(dev("v0.ident=Utf8(disabled) + v1.ident=UTF8", &["id0", "id1", "dis0"], |s| {
+            s.variants[0].ident = "Utf8".into();
+            s.variants[0].disabled = true;
+            s.variants[1].ident = "UTF8".into();
+            true
+        }));
+    }
     d.push(dev("generic<T>", &["gen", "kind0"], |s| {
         s.generics = vec![Generic::Type { name: "T".into(), bounds: "".into() }];
         s.variants[0].kind = Kind::Tuple(vec![FieldTy::T, FieldTy::Bool]);
@@ -82,7 +97,14 @@ pub fn programs(tier: Tier) -> ProgramSet {
     let mut out = Vec::new();
     let mut seen = std::collections::HashSet::new();
     for (n, k) in &plan {
-        let (specs, _) = enumerate(&EnumSpec::base(*n), &format!("B{}", n), &alphabet(*n), *k, &|_| true);
+        let (specs, _) = enumerate(&EnumSpec::base(*n), &format!("B{}", n), &alphabet(*n), *k, &|s: &EnumSpec| {
+            // two ENABLED variants with the same method name are outside the domain (duplicate definitions)
+            let names: Vec<String> = s.variants.iter().filter(|v| !v.disabled).map(|v| refsem::snakify(&v.ident)).collect();
+            let mut u = names.clone();
+            u.sort();
+            u.dedup();
+            u.len() == names.len()
+        });
         for e in specs {
             if seen.insert(e.spec.clone()) {
                 let source = render(&e.spec);
@@ -133,8 +155,13 @@ pub fn render(spec: &EnumSpec) -> String {
     o.push_str(&format!("type EC = {}{};\n", spec.name, spec.generics_inst()));
     // fallback traits: one per predicate / accessor name, so that the absence of an inherent method is observable
     o.push_str("pub struct Absent;\ntrait ProbeB { fn probe(self) -> Option<bool>; }\nimpl ProbeB for bool { fn probe(self) -> Option<bool> { Some(self) } }\nimpl ProbeB for Absent { fn probe(self) -> Option<bool> { None } }\n");
+    let mut seen_names: Vec<String> = Vec::new();
     for (i, v) in spec.variants.iter().enumerate() {
         let m = refsem::snakify(&v.ident);
+        if seen_names.contains(&m) {
+            continue;
+        }
+        seen_names.push(m.clone());
         o.push_str(&format!("trait FbIs{i} {{ fn is_{m}(&self) -> Absent {{ Absent }} }}\nimpl<X> FbIs{i} for X {{}}\n", i = i, m = m));
     }
     o.push_str("pub fn run(ctx: &mut vf_core::Ctx) {\n    let mut obs: Vec<(usize, usize, String, String)> = Vec::new();\n");
@@ -198,7 +225,12 @@ pub fn check(ctx: &mut Ctx, obs: Vec<(usize, usize, String, String)>) {
         };
         let want: String;
         if let Some(m) = method.strip_prefix("is_") {
-            let target = spec.variants.iter().find(|x| refsem::snakify(&x.ident) == m).expect("method of a declared variant");
+            let target = spec
+                .variants
+                .iter()
+                .find(|x| !x.disabled && refsem::snakify(&x.ident) == m)
+                .or_else(|| spec.variants.iter().find(|x| refsem::snakify(&x.ident) == m))
+                .expect("method of a declared variant");
             if target.disabled {
                 want = "None".into();
                 ctx.outcome("disabled-predicate-absent");
@@ -209,7 +241,7 @@ pub fn check(ctx: &mut Ctx, obs: Vec<(usize, usize, String, String)>) {
             }
         } else if let Some(rest) = method.strip_prefix("write-through try_as_") {
             let m = rest.trim_end_matches("_mut");
-            let target = spec.variants.iter().find(|x| refsem::snakify(&x.ident) == m).expect("declared");
+            let target = spec.variants.iter().find(|x| !x.disabled && refsem::snakify(&x.ident) == m).or_else(|| spec.variants.iter().find(|x| refsem::snakify(&x.ident) == m)).expect("declared");
             if std::ptr::eq(target, v) {
                 let newd: Vec<String> = ftys
                     .iter()
@@ -231,7 +263,7 @@ pub fn check(ctx: &mut Ctx, obs: Vec<(usize, usize, String, String)>) {
         } else {
             let m0 = method.strip_prefix("try_as_").unwrap_or(&method);
             let m = m0.trim_end_matches("_ref").trim_end_matches("_mut");
-            let target = spec.variants.iter().find(|x| refsem::snakify(&x.ident) == m).expect("declared");
+            let target = spec.variants.iter().find(|x| !x.disabled && refsem::snakify(&x.ident) == m).or_else(|| spec.variants.iter().find(|x| refsem::snakify(&x.ident) == m)).expect("declared");
             if std::ptr::eq(target, v) {
                 want = format!("Some({})", tuple_txt(&dbg));
                 ctx.outcome("try_as-some");
